@@ -22,6 +22,16 @@ CHECKS = {
          "Generated manifests (0-80 layers, non-layer children, repeated digests, URL lists around the label size limit) are enumerated by containerd's real ChildrenHandler, labelled by both real writer flavours and read back by both real readers; every layer descriptor is checked (labels.Validate, same reference/digest/URLs, neighbours a prefix in manifest order each with its own URLs, prefetch size round-trips), every subset of <=3 labels removed/corrupted must be rejected or spell the same source; an L3 stage hands the labels to a real fs.Mount over FUSE and judges the registry request log. Holds on the manifests generated.",
          "Trusted: containerd's images.ChildrenHandler, snapshotters.AppendInfoHandlerWrapper, labels.Validate and FilterInheritedLabels (third-party, used as the real pipeline); the manifest generator's model of what was written. Domain limits: URLs without ',', well-formed references < 1 KiB.",
          "DESIGN.md section 5 C20"),
+ "C08": ("exploration",
+         "reference-model monitor over generated operation sequences with a recording, fault-scripted backend + Go race detector",
+         "Random operation sequences (Prepare with/without target, View, Commit, Mounts, Remove, Cleanup, Walk, Stat, Update, Close+reopen; sync/async remove; scripted Mount/Check/Unmount failures) on the real snapshotter over a recording FileSystem (and a real bind-mount variant read back from /proc/self/mountinfo). After every operation a 100-line model is compared with Walk, the id map, the snapshots/ directory and the backend mount table (clauses a-f of DESIGN.md C08); a concurrent phase runs under the race detector. Holds on the sequences executed.",
+         "Trusted: containerd's storage package and bbolt; the reference model in internal/recfs/snapdrv; recfs records at the FileSystem boundary. Error kinds other than those the statement names are not judged.",
+         "DESIGN.md section 5 C08"),
+ "C09": ("fault_enumeration",
+         "crash-image enumeration at build-tagged crash points + restart oracle in child processes",
+         "For generated histories a crash image (metadata.db + snapshots/) is taken at EVERY hit of the 14 snap.* crash points and at every operation boundary; each image is restarted in a fresh process under {allow-invalid, strict, no-restore} x {all mounts succeed, k-th mount fails} (plus leftover real bind mounts) and checked: restart result as the mode prescribes, exactly the committed remote snapshots re-mounted with their labels, markers in ordinary snapshots intact, acknowledged snapshots usable/removable, one Cleanup leaves exactly the live ids. Exhaustive over the crash points hit by each history; holds on the histories generated.",
+         "Trusted: a file copy of metadata.db taken while no transaction commits equals what a power cut leaves (bbolt writes only at commit); crash points inside containerd's storage package and inside a bbolt commit, and torn sector writes, are not enumerated.",
+         "DESIGN.md section 5 C09"),
 }
 
 PENDING_REASON = "check not built yet in this session (work in progress; DESIGN.md section 5 describes the planned runtime monitor)"
